@@ -14,6 +14,24 @@ CLAIMED = {
     "C03": ("detsim", "deterministic simulation: order rule over recorded issue/park/grant events of every sampled schedule",
             "History check: if request A was observed parked before request B was issued and they are not both reads, B is never granted before A. The premise uses scheduler-visible parking, so it does not depend on tie-breaking between truly concurrent calls.",
             "Trusted: pthread model; park = thread blocked in pthread_cond_wait inside lock*(); sampling.", "§5 C03"),
+    "C07": ("detsim", "deterministic simulation: seeded schedule search over owner programs on one ThreadPool; task life-cycle log checked per task (runs<=1, destroyed exactly once, never during run, must-run tasks ran, FIFO with one worker)",
+            "Generated owner programs (start/clear/stop/restart/wait/getters, Runnable tasks and callables with lvalue arguments) against the real ThreadPool with non-expiring workers; every task's submit/begin/end/destroy events are checked; a must-run task that never runs shows up as a scheduler-level deadlock; ASan catches a task freed while running.",
+            "Trusted: pthread model; PRNG-chosen notify_one target and spurious wake-ups are legal POSIX behaviours; sampling.", "§5 C07"),
+    "C08": ("detsim", "deterministic simulation: scheduler-level deadlock detection around stop() + post-stop state checks + restart probe, with expiry, clock jumps and starvation of workers between predicate and blocking",
+            "stop() must return under every sampled schedule (owner blocked in join while a worker is parked = stop-hang); afterwards thread count 0, nothing running, every earlier task destroyed, a later start() runs its task and a second stop() returns; live worker threads never exceed the maximum.",
+            "Trusted: pthread model and simulated wall clock; sampling.", "§5 C08"),
+    "C10": ("detsim", "deterministic simulation (single thread): the simulator injects 0-2 mutations at every observer invocation of a running notify round; lock-step reference model of rounds + AddressSanitizer",
+            "Borderline case of the family, claimed because the property is about operations that overlap in time with a running notification: the simulator decides online what overlaps with what. Oracle: reference model (round snapshot, skip/expect rules, argument values, handle facts) and ASan for memory safety.",
+            "Trusted: the round model is derived from the property text; validity between invalidate() and lazy removal is left open; sampling over decision sequences.", "§5 C10"),
+    "C11": ("detsim", "deterministic simulation: seeded schedule search over multi-threaded router programs; completed history checked for linearizability (Wing-Gong search vs. sequential model) + containment and no-call-after-unsubscribe rules + ASan",
+            "2-4 threads x 1-4 operations on one ConcurrentSubjectRouter with callbacks that stay in progress across scheduling points; every completed history must be linearizable w.r.t. a sequential live-set model; a delivery in progress when a mutator is called must end before the mutator returns.",
+            "Trusted: pthread model; return values of notify/exists/depth are checked as ranges so that shrink's clean-up policy is not encoded; argument-less notifications only; sampling.", "§5 C11"),
+    "C15": ("detsim", "deterministic simulation + ThreadSanitizer: T-flavour builds of the resource, pool and router harnesses; the simulator announces exactly the POSIX happens-before edges of the primitives it models, TSan's vector clocks decide",
+            "Any ThreadSanitizer report in tulz code under the generated intended-use programs is a violation. TSan's verdict depends on happens-before, not on physical overlap, so each explored schedule stands for all schedules with the same synchronisation structure; the simulator's job is to reach worker start-up, expiry, shutdown and restart paths.",
+            "Trusted: the simulator's happens-before announcements (mutex release->acquire, cond_wait as release+acquire, create, join); TSan's bounded shadow history; libstdc++ locale caches are pre-warmed.", "§5 C15"),
+    "C20": ("detsim", "deterministic simulation: seeded schedule search that delays the first step of the new thread past the death of the launching frame; liveness registry of callable copies + AddressSanitizer stack-use-after-return",
+            "Every callable kind x start path x lvalue argument list is launched from a frame that dies; the scheduler decides how late the child first runs; the callable instance invoked must be registered alive at entry and exit, invoked exactly once on another thread, isFinished()/join() only after it returned.",
+            "Trusted: pthread model; ASan fake stacks for use-after-return; sampling.", "§5 C20"),
     "C12": ("detsim", "deterministic simulation: 'no reader parks without an outstanding writer' over histories + rendezvous batches that must not deadlock",
             "Two oracles: (a) a parked read request implies a write request outstanding in [issue, park]; (b) k readers queued behind a writer meet at a simulator barrier inside the critical section and the run must finish.",
             "Trusted: pthread model; barrier is simulator-native (adds no lock traffic); sampling.", "§5 C12"),
@@ -31,7 +49,7 @@ NOT_APPLICABLE = {
     "C19": "LocaleInfo::get is a pure function of one string (DESIGN.md §6).",
 }
 PENDING = {k: "not claimed yet: the check for this property is still being built in this session (see DESIGN.md §5); no verdict is offered"
-           for k in ("C07", "C08", "C10", "C11", "C15", "C18", "C20")}
+           for k in ("C18",)}
 
 def main():
     checks = []
